@@ -64,7 +64,7 @@ def events(c, L):
 
 
 def index_content(c, L):
-    idx = c.get("_interval_index", L)
+    idx = c.get("LIT._interval_index", L)
     return z3.Select(c.arr("$tree_content"), ref(idx))
 
 
@@ -77,7 +77,7 @@ def coll_typed(c, elem, L):
 
 def wf_lazy(c, elem, L):
     """index is None, or replaying the pending events over the index gives exactly the current intervals"""
-    idx = c.get("_interval_index", L)
+    idx = c.get("LIT._interval_index", L)
     iv = fresh("iv", Val)
     return z3.Or(is_VNone(idx),
                  z3.And(is_VRef(idx),
@@ -86,6 +86,6 @@ def wf_lazy(c, elem, L):
 
 def index_set(c, elem, L):
     """The abstract index idx(container) of DESIGN 3.3 as a predicate on intervals."""
-    idx = c.get("_interval_index", L)
+    idx = c.get("LIT._interval_index", L)
     return lambda iv: z3.If(is_VNone(idx), cur_has(c, elem, L, iv),
                             z3.Select(Denote(events(c, L), index_content(c, L)), iv))
